@@ -299,7 +299,10 @@ def cross_check(assertions, claim, z3_sat, log):
         out, err = 'error', str(e)
     log['n'] = log.get('n', 0) + 1
     log['s'] = log.get('s', 0.0) + time.time() - t0
-    if out not in ('sat', 'unsat') or '(error' in err or '(error' in out:
+    if 'timeout' in err.lower() or 'timeout' in out.lower() or out == 'unknown':
+        log['timeouts'] = log.get('timeouts', 0) + 1      # the second solver gave up: this obligation is simply not re-checked
+        log['n'] -= 1
+    elif out not in ('sat', 'unsat') or '(error' in err or '(error' in out:
         log.setdefault('problems', []).append('cvc5 answered %r %s' % (out, err[:200]))
     elif (out == 'sat') != z3_sat:
         log.setdefault('problems', []).append('z3 says %s, cvc5 says %s' % ('sat' if z3_sat else 'unsat', out))
